@@ -128,6 +128,22 @@ type c32Case struct {
 	Tags  *c32Tags  `json:"tags,omitempty"`
 	Relay *c32Relay `json:"relay,omitempty"`
 	Limit *c32Limit `json:"limit,omitempty"`
+	Seq   *c32Seq   `json:"seq,omitempty"`
+}
+
+// c32Seq (kind "seq"): several user events and queries arrive at one real node
+// by gossip, one after another. What the node hands to the application for
+// each of them, and what it would carry to a joining node in a state sync,
+// must equal what was sent - and must still do so after the later messages
+// have been decoded (a decoded value that shares memory with a buffer that is
+// decoded into again changes after the fact).
+type c32Seq struct {
+	Items []c32SeqItem `json:"items"`
+}
+type c32SeqItem struct {
+	Query   bool   `json:"query,omitempty"`
+	Name    string `json:"name"`
+	Payload []byte `json:"payload"`
 }
 
 // ---- wire mirrors: what another implementation reading the wire expects ----
@@ -450,9 +466,29 @@ func genC32Limit(t *rapid.T) *c32Limit {
 }
 
 func genC32(t *rapid.T) c32Case {
-	kind := rapid.SampledFrom([]string{"msg", "msg", "msg", "msg", "msg", "msg", "tags", "tags", "relay", "limit"}).Draw(t, "kind")
+	kind := rapid.SampledFrom([]string{"msg", "msg", "msg", "msg", "msg", "msg", "tags", "tags", "relay", "limit", "seq"}).Draw(t, "kind")
 	c := c32Case{Kind: kind}
 	switch kind {
+	case "seq":
+		c.Seq = &c32Seq{}
+		// payload lengths mostly fall (a later payload fits into an earlier one's buffer)
+		ln := rapid.IntRange(4, 64).Draw(t, "seq.len")
+		for i, n := 0, rapid.IntRange(2, 6).Draw(t, "seq.n"); i < n; i++ {
+			it := c32SeqItem{Query: rapid.IntRange(0, 3).Draw(t, "seq.q") == 0, Name: rapid.SampledFrom([]string{"deploy", "d", "restart", "e"}).Draw(t, "seq.name")}
+			it.Payload = make([]byte, ln)
+			fill := byte('A' + i)
+			for k := range it.Payload {
+				it.Payload[k] = fill
+			}
+			c.Seq.Items = append(c.Seq.Items, it)
+			switch rapid.IntRange(0, 3).Draw(t, "seq.next") {
+			case 0:
+				ln = rapid.IntRange(0, 64).Draw(t, "seq.len2")
+			case 1:
+			default:
+				ln = max(0, ln-rapid.IntRange(0, 8).Draw(t, "seq.shrink"))
+			}
+		}
 	case "msg":
 		c.Msg = genC32Msg(t)
 	case "tags":
@@ -1211,6 +1247,114 @@ func bodyC32Limit(l *c32Limit, x *vkit.Ctx) {
 	x.NonTrivial(d >= -8 && d <= 8)
 }
 
+func bodyC32Seq(q *c32Seq, x *vkit.Ctx) {
+	if len(q.Items) == 0 {
+		x.Inconclusive("malformed case")
+		return
+	}
+	nw := simnet.New(1)
+	n, err := c32Node(x, nw, "seq-node", 5, nil)
+	if err != nil {
+		x.Inconclusive("node setup: " + err.Error())
+		return
+	}
+	defer n.Stop()
+	n.Drain(node.Settle)
+	type got struct {
+		name    string
+		payload []byte // the slice the application was handed, not a copy
+	}
+	var recv []got
+	for i, it := range q.Items {
+		lt := serf.LamportTime(10 + i)
+		var msg []byte
+		if it.Query {
+			msg, _ = serf.VerifEncodeMessage(serf.VerifMessageQueryType, &serf.VerifMessageQuery{LTime: lt, ID: uint32(100 + i), Addr: []byte{10, 9, 9, 9}, Port: 7946, SourceNode: "peer", Name: it.Name, Payload: it.Payload, Timeout: time.Second}, false)
+		} else {
+			msg, _ = serf.VerifEncodeMessage(serf.VerifMessageUserEventType, &serf.VerifMessageUserEvent{LTime: lt, Name: it.Name, Payload: it.Payload}, false)
+		}
+		// memberlist re-uses its packet buffer: the delegate gets a slice it must not keep
+		wire := append([]byte(nil), msg...)
+		n.Delegate.NotifyMsg(wire)
+		for k := range wire {
+			wire[k] = 0xEE
+		}
+		evs, ok := n.WaitEvents(5*time.Second, func(es []serf.Event) bool {
+			for _, e := range es {
+				switch v := e.(type) {
+				case serf.UserEvent:
+					if !it.Query && v.LTime == lt {
+						return true
+					}
+				case *serf.Query:
+					if it.Query && v.LTime == lt {
+						return true
+					}
+				}
+			}
+			return false
+		})
+		if !ok {
+			x.Violationf("seq-not-delivered", "item %d (%+v) was not handed to the application", i, it)
+			return
+		}
+		for _, e := range evs {
+			switch v := e.(type) {
+			case serf.UserEvent:
+				if v.LTime == lt {
+					recv = append(recv, got{v.Name, v.Payload})
+				}
+			case *serf.Query:
+				if v.LTime == lt {
+					recv = append(recv, got{v.Name, v.Payload})
+				}
+			}
+		}
+		if len(recv) != i+1 {
+			x.Violationf("seq-delivery-count", "after item %d the application holds %d deliveries", i, len(recv))
+			return
+		}
+		// everything handed over so far still reads as it was sent
+		for j := 0; j <= i; j++ {
+			if recv[j].name != q.Items[j].Name || !bytes.Equal(recv[j].payload, q.Items[j].Payload) {
+				x.Violationf("delivered-value-changed", "after item %d arrived, the value handed to the application for item %d reads name %q payload %q; sent %q %q",
+					i, j, recv[j].name, recv[j].payload, q.Items[j].Name, q.Items[j].Payload)
+				return
+			}
+		}
+	}
+	// what a joining node would be told about the recent user events
+	var pp serf.VerifMessagePushPull
+	st := n.Delegate.LocalState(true)
+	if len(st) < 1 || serf.VerifDecodeMessage(st[1:], &pp) != nil {
+		x.Violationf("seq-local-state", "LocalState does not decode")
+		return
+	}
+	for j, it := range q.Items {
+		if it.Query {
+			continue
+		}
+		found := false
+		for _, ue := range pp.Events {
+			if ue == nil || ue.LTime != serf.LamportTime(10+j) {
+				continue
+			}
+			for _, e := range ue.Events {
+				if e.Name == it.Name && bytes.Equal(e.Payload, it.Payload) {
+					found = true
+				}
+			}
+		}
+		if !found {
+			x.Violationf("state-sync-value-changed", "the state sync does not carry user event %d as sent (name %q payload %q); it carries %+v", j, it.Name, it.Payload, pp.Events)
+			return
+		}
+	}
+	x.Label("part:seq")
+	x.Labelf("seq:items=%d", len(q.Items))
+	x.NonTrivial(len(q.Items) >= 2)
+}
+
 func bodyC32(c c32Case, x *vkit.Ctx) {
 	switch {
 	case c.Kind == "msg" && c.Msg != nil:
@@ -1221,6 +1365,8 @@ func bodyC32(c c32Case, x *vkit.Ctx) {
 		bodyC32Relay(c.Relay, x)
 	case c.Kind == "limit" && c.Limit != nil:
 		bodyC32Limit(c.Limit, x)
+	case c.Kind == "seq" && c.Seq != nil:
+		bodyC32Seq(c.Seq, x)
 	default:
 		x.Inconclusive("malformed case")
 	}
